@@ -17,14 +17,23 @@ CHECKS = {
         "non-overlapping, follow-up tests for `{`, `throws ...{`, `: type {`).  Brace matching = Dyck matching "
         "(C01_blocks_are_dyck), pairing (C01_pairing), Python block extraction (C01_python_blocks).  The two hypotheses have "
         "boolean checkers proved sound; the harness decides them INSIDE Coq on 280 generated programs per quick run and "
-        "compares the theorem's right-hand side with the generator's expectation.  NOT proved: that every program of the "
-        "informally described canonical grammar satisfies the two hypotheses (the grammar is not formalised); C01_python "
-        "excludes backslash continuations.  4 200 generated programs per quick run (nesting in any position, multi-line "
+        "compares the theorem's right-hand side with the generator's expectation.  For the six brace languages the last step "
+        "is proved as well: Scope/Grammar.v / GrammarAll.v formalise a token-level canonical grammar (statements, control "
+        "statements, functions with type words and every documented header form: plain, Java throws, [function] name, "
+        "TypeScript return type, arrow functions; nesting) and C01_grammar_brace (C01_grammar_cpp / _c) show that for EVERY "
+        "program it generates scan_file returns exactly the prescribed measurements (no hypothesis left but the lexer "
+        "contract and the absence of markers).  The first version of that theorem was refuted by its proof attempt, which "
+        "exposed the genuine defect GD26 (TypeScript: a call in a ternary inside a condition reported as a function).  The "
+        "comparison operators of the hand model are proved equal to definitions regenerated from the source on every run "
+        "(C01_operators_tied).  Python has its own grammar over positioned tokens (blocks of lines at one indentation, definition "
+        "line + deeper block) with theorem C01_grammar_python.  NOT proved: what the grammars leave out (brace groups inside parameter lists, multi-line Python "
+        "headers, backslash continuations: hypothesis form and generator only) and the text->token step (lexers are oracles).  4 200 generated programs per quick run (nesting in any position, multi-line "
         "headers, both brace styles, brace groups and calls in parameters, async, long throws / return types, strings with "
         "delimiters, marker-like comments, bodies around 15/30/60) are judged against expectations computed from the rendering, "
         "and the Coq model runs on the same token streams.",
-   note="Partial: the canonical grammar is informal, so 'every canonical program satisfies the theorem's lexical hypotheses' is "
-        "validated (decided in Coq per generated program), not proved.  Trusted: Coq kernel; scope model (tie H), captured "
+   note="Partial: formal grammars with unconditional theorems exist for all seven languages, but they leave out brace groups "
+        "inside parameter lists, multi-line Python headers and continuations (those are covered by the decidable-hypothesis theorems, "
+        "validated per generated program); lexers are oracles.  Trusted: Coq kernel; scope model (tie H), captured "
         "patterns (tie K); generator harness/progen.py and its piece-ownership expectation.",
    technique="Rocq end-to-end theorem (header recognition via the concrete DFAs, Dyck matching, pairing invariant, fold, counting; Python suites) under decidable lexical hypotheses checked in Coq per generated program + typed program generator with computed expectations",
    ref="DESIGN.md sections 5 and 9, C01"),
